@@ -1,5 +1,6 @@
 import CookModel.Side.Builder
 import CookModel.Lemmas.BuilderFinish
+import CookModel.Lemmas.BuilderLayers
 /-
   C16  Converters built from configuration layers are consistent or rejected.
 
@@ -98,5 +99,192 @@ theorem C16_best_sorted (files : List (UnitsFile Rat)) (conv : Converter Rat) (h
   · rcases hl with rfl | rfl
     · exact hfin _ hspec.1
     · exact hfin _ hspec.2
+
+/-! ### Precedence -/
+
+/-- `join_alias_vec`: the lists of an extended unit are `new ++ old` (before), `old ++ new` (after) or `new`
+    (override); an absent list leaves the old one. -/
+theorem C16_precedence_lists (old new : List Key) :
+    optJoin old (some new) .before = new ++ old ∧ optJoin old (some new) .after = old ++ new ∧
+    optJoin old (some new) .override = new ∧ ∀ pr, optJoin old none pr = old :=
+  ⟨rfl, rfl, rfl, fun _ => rfl⟩
+
+/-- An extend block applied to any consistent builder state (every state `finish` applies a block to is one:
+    `C16_precedence_spec` below gives it for the last layer).  Every entry `(key, e)` edits the unit that `key`
+    resolves to BEFORE the block, whatever the iteration order of the block's hash map:
+    a unit that is not an SI expansion gets ratio/difference replaced where given and names, symbols, aliases joined
+    by the block's precedence (`editUnit`); an SI expansion only accepts aliases, which are joined the same way.
+    Units that no entry addresses keep their aliases and SI flags and, unless they are SI expansions, are untouched. -/
+theorem C16_extend_block_spec {α : Type} [Arith α] (si : SIConf) (c c' : Core α) (g : Extend α) (hc : Ready c)
+    (h : applyExtendGroup si c g = .ok c') :
+    (∀ ke, ke ∈ g.units → ∃ id u u', idxGet c.index ke.1 = some id ∧ c.units[id]? = some u ∧ c'.units[id]? = some u' ∧
+        u'.unit.aliases = optJoin u.unit.aliases ke.2.aliases g.precedence ∧
+        (u.isExpanded = false → u'.unit = editUnit u.unit g.precedence ke.2) ∧
+        (u.isExpanded = true → entryTouchesBase ke.2 = false)) ∧
+    (∀ j uj, (∀ ke, ke ∈ g.units → idxGet c.index ke.1 ≠ some j) → c.units[j]? = some uj →
+        ∃ uj', c'.units[j]? = some uj' ∧ Kept uj uj') :=
+  applyExtendGroup_spec si c c' g hc h
+
+/-- `editUnit` spelled out. -/
+theorem C16_edit_unit {α : Type} (u : Bld.Unit α) (pr : Prec) (e : ExtendEntry α) :
+    (editUnit u pr e).names = optJoin u.names e.names pr ∧ (editUnit u pr e).symbols = optJoin u.symbols e.symbols pr ∧
+    (editUnit u pr e).aliases = optJoin u.aliases e.aliases pr ∧ (editUnit u pr e).ratio = e.ratio.getD u.ratio ∧
+    (editUnit u pr e).difference = e.difference.getD u.difference ∧ (editUnit u pr e).quantity = u.quantity ∧
+    (editUnit u pr e).system = u.system :=
+  ⟨rfl, rfl, rfl, rfl, rfl, rfl, rfl⟩
+
+/-- The extend block of the last layer, at the level of `build`: there is a consistent state `c0` (all earlier
+    layers and blocks applied) such that every entry of the block edits, in the built converter, the unit its key
+    resolves to in `c0`, by the block's precedence. -/
+theorem C16_precedence_spec {α : Type} [Arith α] (fs : List (UnitsFile α)) (f : UnitsFile α) (g : Extend α) (conv : Converter α)
+    (hg : f.extend = some g) (h : build (fs ++ [f]) = .ok conv) :
+    ∃ c0 : Core α, Ready c0 ∧ ∀ ke, ke ∈ g.units → ∃ id u u', idxGet c0.index ke.1 = some id ∧ c0.units[id]? = some u ∧
+        conv.units[id]? = some u' ∧ u'.aliases = optJoin u.unit.aliases ke.2.aliases g.precedence ∧
+        (u.isExpanded = false → u' = editUnit u.unit g.precedence ke.2) := by
+  obtain ⟨b, c, hbc, _, hp⟩ := (build_good (fs ++ [f])).of_ok h
+  obtain ⟨c0, hr0, happly⟩ := build_last_block fs f g hg b c hbc
+  refine ⟨c0, hr0, ?_⟩
+  intro ke hke
+  obtain ⟨id, u, u', h1, h2, h3, h4, h5, _⟩ := (applyExtendGroup_spec b.si c0 c g hr0 happly).1 ke hke
+  refine ⟨id, u, u'.unit, h1, h2, by rw [hp.units, List.getElem?_map, h3]; rfl, h4, h5⟩
+
+/-- Settings of the layers: the converter's default system is that of the last layer that sets one (metric if none
+    does); the best list of a quantity is built from the last group, in layer order, that gives one; extend blocks and
+    fraction layers are kept in layer order; SI tables are joined layer by layer with `joinSI`. -/
+theorem C16_layer_settings {α : Type} [Arith α] (files : List (UnitsFile α)) (conv : Converter α) (h : build files = .ok conv) :
+    ∃ b c, buildCore files = .ok (b, c) ∧
+      conv.defaultSystem = files.foldl layerDefault .metric ∧
+      b.si = files.foldl layerSI { prefixes := none, symbolPrefixes := none, precedence := .before } ∧
+      b.extend = files.filterMap (·.extend) ∧ b.fractions = files.filterMap (·.fractions) ∧
+      (∀ q, b.best q = files.foldl (layerBest q) none) ∧
+      (∀ q s, (q, s) ∈ conv.best → ∃ bd, files.foldl (layerBest q) none = some bd ∧ StoreSpec c q bd s) := by
+  obtain ⟨b, c, hbc, _, hp⟩ := (build_good files).of_ok h
+  have hb : addFiles files Builder.empty = .ok b := by
+    unfold buildCore at hbc
+    split at hbc
+    · cases hbc
+    · rename_i b0 hb0
+      split at hbc
+      · cases hbc
+      · cases hbc; exact hb0
+  obtain ⟨a1, a2, a3, a4, a5⟩ := addFiles_settings hb
+  refine ⟨b, c, hbc, by rw [hp.dflt, a3]; rfl, by rw [a4]; rfl, by rw [a1]; rfl, by rw [a2]; rfl, fun q => by rw [a5]; rfl, ?_⟩
+  intro q s hqs
+  obtain ⟨bd, h1, h2⟩ := hp.best (q, s) hqs
+  exact ⟨bd, by have := a5 q; rw [h1] at this; exact this.symm, h2⟩
+
+/-- …and how those folds read: a layer that sets the default system overrides the earlier ones, one that does not
+    leaves it; a group that gives a best list for `q` overrides every earlier one (later groups silent about `q` do
+    not change it); SI tables of a later layer go before / after / replace the earlier ones by ITS precedence. -/
+theorem C16_later_layers_override {α : Type} (fs : List (UnitsFile α)) (f : UnitsFile α) (d : Sys) :
+    (∀ s, f.defaultSystem = some s → (fs ++ [f]).foldl layerDefault d = s) ∧
+    (f.defaultSystem = none → (fs ++ [f]).foldl layerDefault d = fs.foldl layerDefault d) ∧
+    (∀ q pre post g bd acc, f.quantity = pre ++ g :: post → g.quantity = q → g.best = some bd →
+        (∀ g', g' ∈ post → g'.quantity = q → g'.best = none) → (fs ++ [f]).foldl (layerBest q) acc = some bd) ∧
+    (∀ a b : SIPrefix → List Key, joinPrefixes (some a) (some b) .before = some (fun p => b p ++ a p) ∧
+        joinPrefixes (some a) (some b) .after = some (fun p => a p ++ b p) ∧ joinPrefixes (some a) (some b) .override = some b) := by
+  refine ⟨fun s hs => layerDefault_last fs f d s hs, fun hs => layerDefault_none fs f d hs, ?_, fun a b => ⟨rfl, rfl, rfl⟩⟩
+  intro q pre post g bd acc hf hq hb hpost
+  rw [List.foldl_append]
+  simp only [List.foldl_cons, List.foldl_nil, layerBest, hf]
+  exact bestStep_foldl_last q pre post g bd _ hq hb hpost
+
+/-- Fraction settings: for `all` / `metric` / `imperial` the last layer that sets the field wins; for a quantity the
+    last entry of the last layer that names it; a unit's entry is inserted over earlier ones for the same unit. -/
+theorem C16_fraction_layers {α : Type} (fs : List (FractionsDecl α)) (f : FractionsDecl α) :
+    (∀ sel acc, lastLayer sel (fs ++ [f]) acc = ((sel f).map FracW.get).or (lastLayer sel fs acc)) ∧
+    (∀ m q, quantityLayers (fs ++ [f]) m q =
+        ((f.quantity.reverse.find? (fun e => decide (e.1 = q))).map (·.2.get)).or (quantityLayers fs m q)) ∧
+    (∀ (m : List (Nat × FracCfg α)) k k' v, mapGet (mapInsert m k v) k' = if k' = k then some v else mapGet m k') := by
+  refine ⟨fun sel acc => lastLayer_append sel fs f acc, ?_, fun m k k' v => mapGet_mapInsert m k k' v⟩
+  intro m q
+  rw [quantityLayers_append, quantityLayer_get]
+
+/-! ### The default converter -/
+
+/-- `Converter::bundled()` (= `Converter::default()` with the `bundled_units` feature) is, by definition, the converter
+    built from the shipped units file alone; the generated Lean value of units.toml does build (the two `unwrap`s of
+    `Converter::bundled` do not panic), so every theorem above applies to the default converter.  That the generated
+    value is the file build.rs bundles is what the harness compares (`build_shipped` against `Converter::default()`). -/
+theorem C16_default_converter :
+    ∃ conv : Converter Rat, bundled = .ok conv ∧ build [Gen.shippedFile] = .ok conv := by
+  have h : (bundled (α := Rat)).toOption.isSome = true := by decide +kernel
+  cases hb : bundled (α := Rat) with
+  | error e => rw [hb] at h; cases h
+  | ok conv => exact ⟨conv, rfl, hb⟩
+
+/-! ### Non-vacuity: concrete layer stacks over exact rationals -/
+
+namespace C16Examples
+
+def siFull : SIConf :=
+  { prefixes := some (fun p => match p with
+      | .kilo => [['k','i','l','o']] | .hecto => [['h','e','c','t','o']] | .deca => [['d','e','c','a']]
+      | .deci => [['d','e','c','i']] | .centi => [['c','e','n','t','i']] | .milli => [['m','i','l','l','i']]),
+    symbolPrefixes := some (fun p => match p with
+      | .kilo => [['k']] | .hecto => [['h']] | .deca => [['d','a']] | .deci => [['d']] | .centi => [['c']] | .milli => [['m']]),
+    precedence := .before }
+
+def one (q : PQ) (name sym : Key) (ratio : Rat) (ex : Bool) (best : List Key) : QuantityGroup Rat :=
+  { quantity := q, best := some (.unified best),
+    units := some (.unified [{ names := [name], symbols := [sym], aliases := [], ratio := ratio, difference := 0, expandSi := ex }]) }
+
+/-- a base layer: gram (SI expanded), liter, meter, celsius, second -/
+def base : UnitsFile Rat :=
+  { defaultSystem := some .imperial, si := some siFull, fractions := none, extend := none,
+    quantity := [one .mass ['g','r','a','m'] ['g'] 1 true [['k','g'], ['g']],
+                 one .volume ['l','i','t','e','r'] ['l'] 1 false [['l']],
+                 one .length ['m','e','t','e','r'] ['m'] 1 false [['m']],
+                 one .temperature ['c'] ['C'] 1 false [['C']],
+                 one .time ['s','e','c'] ['s'] 1 false [['s']]] }
+
+/-- a second layer: Spanish names before the English ones, an alias for the expanded kilogram -/
+def spanish : UnitsFile Rat :=
+  { defaultSystem := none, si := none, fractions := none,
+    extend := some { precedence := .before, units := [
+      (['g'], { ratio := none, difference := none, names := some [['g','r','a','m','o']], symbols := none, aliases := none }),
+      (['k','g'], { ratio := none, difference := none, names := none, symbols := none, aliases := some [['k','i','l','o']] })] },
+    quantity := [] }
+
+/-- a layer whose best list for volume names a unit of mass -/
+def wrongBest : UnitsFile Rat :=
+  { defaultSystem := none, si := none, fractions := none, extend := none,
+    quantity := [{ quantity := .volume, best := some (.unified [['l'], ['g']]), units := none }] }
+
+def errOf {β : Type} : Except Err β → Option Err
+  | .error e => some e
+  | .ok _ => none
+
+def unitAt (r : Except Err (Converter Rat)) (i : Nat) : Option (List Key × List Key × List Key × Rat) :=
+  r.toOption.bind (fun c => c.units[i]?.map (fun u => (u.names, u.symbols, u.aliases, u.ratio)))
+
+def lookup (r : Except Err (Converter Rat)) (k : Key) : Option Nat := r.toOption.bind (fun c => idxGet c.index k)
+
+-- the base layer builds: 5 declared units + 6 expansions of gram; kilogram is unit 5 with ratio 1000
+example : (build [base]).toOption.map (·.units.length) = some 11 := by decide +kernel
+example : unitAt (build [base]) 5 = some ([['k','i','l','o','g','r','a','m']], [['k','g']], [], 1000) := by decide +kernel
+example : lookup (build [base]) ['m','g'] = some 10 := by decide +kernel
+-- best list of mass: sorted by ratio (g before kg although the file says kg first), threshold 1 then 1000
+example : (build [base]).toOption.bind (fun c => (c.best[1]?).map (fun e => e.2.lists)) = some [[(1, 0), (1000, 5)]] := by
+  decide +kernel
+-- the second layer puts `gramo` before `gram`, re-expands (kilogramo before kilogram) and keeps the alias
+example : unitAt (build [base, spanish]) 0 = some ([['g','r','a','m','o'], ['g','r','a','m']], [['g']], [], 1) := by decide +kernel
+example : unitAt (build [base, spanish]) 5 =
+    some ([['k','i','l','o','g','r','a','m','o'], ['k','i','l','o','g','r','a','m']], [['k','g']], [['k','i','l','o']], 1000) := by
+  decide +kernel
+example : lookup (build [base, spanish]) ['k','i','l','o'] = some 5 := by decide +kernel
+-- the same block in the other hash-map order gives the same units
+example : unitAt (build [base, { spanish with extend := spanish.extend.map (fun e => { e with units := e.units.reverse }) }]) 5
+    = unitAt (build [base, spanish]) 5 := by decide +kernel
+-- later default system wins; none keeps the earlier one
+example : (build [base, spanish]).toOption.map (·.defaultSystem) = some .imperial := by decide +kernel
+-- rejected: a best unit of another quantity (before the repair: a panic)
+example : errOf (build [base, wrongBest]) = some (.bestUnitQuantity ['g'] .volume .mass) := by decide +kernel
+-- rejected: the same key twice
+example : errOf (build [base, base]) = some (.duplicateUnit ['g','r','a','m']) := by decide +kernel
+-- rejected: no best units for a quantity
+example : errOf (build [{ base with quantity := base.quantity.drop 1 }]) = some (.emptyBest .mass true) := by decide +kernel
+
+end C16Examples
 
 end Cook
